@@ -69,6 +69,14 @@ fn judge<'a>(p: V3, cands: impl Iterator<Item = &'a RingInfo>) -> Result<Tally, 
     let mut t = Tally { strict: Vec::new(), covered: false, band: 0, candidates: 0, faces: BTreeSet::new() };
     for info in cands {
         let (rv, rt) = info.test(p);
+        if std::env::var("A5VERIF_DEBUG").is_ok() && ang(p, info.centre) <= info.cap {
+            let (lon, lat) = lonlat_of_vec(p);
+            eprintln!(
+                "DEBUG judge {:#x}: ring {:?} visible {} dist {:e} band {:e} cap {:e} ang {:e} lib {:?}",
+                info.id, rv, rt.visible, rt.dist, info.band, info.cap, ang(p, info.centre),
+                a5::core::cell::a5cell_contains_point(&crate::api::to_a5cell(&info.cell), api::lonlat(lon, lat.clamp(-90.0, 90.0)))
+            );
+        }
         // the library's own predicate (an observation point of this property) must agree with the ring
         // oracle wherever the point is clear of the cell's outline by a wide margin
         if rt.visible && rt.dist > 8.0 * info.band.max(contain::BAND) && ang(p, info.centre) <= 2.0 * info.cap {
@@ -81,6 +89,24 @@ fn judge<'a>(p: V3, cands: impl Iterator<Item = &'a RingInfo>) -> Result<Tally, 
                         "the library's containment test says point ({}, {}) is {} cell {:#x} (value {:e}), but the point is {:.3e} rad {} its boundary ring",
                         lon, lat, if lib_inside { "strictly inside" } else { "not inside" }, info.id, d, rt.dist, if ring_inside { "inside" } else { "outside" }
                     ));
+                }
+            }
+        }
+        // ... and, closer to the outline than the ring oracle can decide, with the harness's own signed distance
+        // of the projected point to the cell's pentagon (same projection, different predicate): beyond the
+        // rounding band the two must have the same sign. Catches a predicate that gives up a sliver of a cell.
+        if rt.visible && ang(p, info.centre) <= 2.0 * info.cap {
+            if let Ok(sd) = contain::planar_signed_dist(&info.cell, p) {
+                if sd.abs() > 4.0 * contain::STRICT {
+                    let (lon, lat) = lonlat_of_vec(p);
+                    if let Ok(d) = a5::core::cell::a5cell_contains_point(&crate::api::to_a5cell(&info.cell), api::lonlat(lon, lat.clamp(-90.0, 90.0))) {
+                        if (d > 0.0) != (sd > 0.0) {
+                            return Err(format!(
+                                "the library's containment test says point ({}, {}) is {} cell {:#x} (value {:e}), but its projection lies {:.3e} face units {} the cell's pentagon",
+                                lon, lat, if d > 0.0 { "strictly inside" } else { "not inside" }, info.id, d, sd.abs(), if sd > 0.0 { "inside" } else { "outside" }
+                            ));
+                        }
+                    }
                 }
             }
         }
@@ -202,6 +228,37 @@ fn check_exhaustive(src: &super::c01::Src, res: i32, st: &mut Stats) -> Result<(
 
 fn check_neighbourhood(src: &super::c01::Src, res: i32, st: &mut Stats) -> Result<(), String> {
     let (lon, lat, class) = src.with_res(res).lonlat()?;
+    check_neighbourhood_at(lon, lat, class, res, st)
+}
+
+/// Points within a cell size or two of one of the 20 dodecahedron vertices, scaled to the resolution asked: where
+/// cells of three faces interlock and the tips of cells poke past a face's corner (the statement names this place).
+fn check_vertex_neighbourhood(vertex: u8, dx: f64, dy: f64, res: i32, st: &mut Stats) -> Result<(), String> {
+    let fr = gen::frame();
+    let (v, _) = fr.vertices[vertex as usize % 20];
+    let size = contain::cell_size(res);
+    let q = offset_point(v, dx * size, dy * size);
+    let (lon, lat) = lonlat_of_vec(q);
+    let lat = lat.clamp(-90.0, 90.0);
+    if dx.to_bits() & 0x10 == 0 {
+        return check_neighbourhood_at(lon, lat, "within-2-cell-sizes-of-a-dodecahedron-vertex", res, st);
+    }
+    // half of the cases: the far tip of the cell found there - the corner of its pentagon that lies furthest from
+    // its own face centre (beyond the face's corner or edge), and a point a little way in from that corner
+    let id = a5::lonlat_to_cell(api::lonlat(lon, lat), res).map_err(|e| format!("lonlat_to_cell failed: {}", e))?;
+    let c = codec::decode(id).ok_or("non-canonical cell from lookup")?;
+    let pent = api::pentagon(&c)?;
+    let k = (0..pent.len()).max_by(|&a, &b| (pent[a][0].hypot(pent[a][1])).partial_cmp(&pent[b][0].hypot(pent[b][1])).unwrap()).unwrap();
+    let cx = pent.iter().map(|p| p[0]).sum::<f64>() / pent.len() as f64;
+    let cy = pent.iter().map(|p| p[1]).sum::<f64>() / pent.len() as f64;
+    let t = 0.01 + 0.35 * (dy.abs() / 2.0);
+    let tip = [pent[k][0] + t * (cx - pent[k][0]), pent[k][1] + t * (cy - pent[k][1])];
+    let pv = api::inverse(tip, c.face)?;
+    let (lon, lat) = lonlat_of_vec(pv);
+    check_neighbourhood_at(lon, lat.clamp(-90.0, 90.0), "far-tip-of-a-cell-at-a-dodecahedron-vertex", res, st)
+}
+
+fn check_neighbourhood_at(lon: f64, lat: f64, class: &str, res: i32, st: &mut Stats) -> Result<(), String> {
     let p = vec_of_lonlat(lon, lat);
     let size = contain::cell_size(res);
     let mut ids: BTreeSet<u64> = BTreeSet::new();
@@ -286,7 +343,18 @@ pub fn run(tier: Tier, seed: u64) -> Report {
         |(src, res), st| check_neighbourhood(src, *res, st),
         |(src, res)| json!({"src": super::c01::src_json(src), "res": res}),
     );
-    rep.absorb("neighbourhood", r);
+    if !rep.absorb("neighbourhood", r) {
+        return rep;
+    }
+    let r = run_pbt(
+        "vertex-neighbourhood",
+        seed,
+        tier.pick(1_000, 20_000),
+        || (0u8..20, -2.0f64..2.0, -2.0f64..2.0, (max_ex + 1)..=29).boxed(),
+        |(v, dx, dy, res), st| check_vertex_neighbourhood(*v, *dx, *dy, *res, st),
+        |(v, dx, dy, res)| json!({"vertex": v, "dx": dx, "dy": dy, "res": res}),
+    );
+    rep.absorb("vertex-neighbourhood", r);
     rep
 }
 
@@ -296,6 +364,17 @@ pub fn replay(section: &str, case: &Value) -> Option<Result<(), String>> {
         if let Some(r) = section.strip_prefix("exhaustive-r") {
             let res: i32 = r.parse().map_err(|_| "bad section")?;
             check_exhaustive(&super::c01::src_from_json(case).ok_or("bad case")?, res, &mut st)
+        } else if section == "explicit-point" {
+            // hand-written regression cases: {"lon":..,"lat":..,"res":..}
+            check_neighbourhood_at(case["lon"].as_f64().ok_or("bad case")?, case["lat"].as_f64().ok_or("bad case")?, "explicit", case["res"].as_i64().ok_or("bad case")? as i32, &mut st)
+        } else if section == "vertex-neighbourhood" {
+            check_vertex_neighbourhood(
+                case["vertex"].as_u64().ok_or("bad case")? as u8,
+                case["dx"].as_f64().ok_or("bad case")?,
+                case["dy"].as_f64().ok_or("bad case")?,
+                case["res"].as_i64().ok_or("bad case")? as i32,
+                &mut st,
+            )
         } else if section == "neighbourhood" {
             check_neighbourhood(&super::c01::src_from_json(&case["src"]).ok_or("bad case")?, case["res"].as_i64().ok_or("bad case")? as i32, &mut st)
         } else {
